@@ -273,6 +273,37 @@ def run(ctx, R):
         R.ob("C03:constant:%s" % at, lit_consts.get(at) == rt_consts.get(at) and lit_consts.get(at),
              "push_literal -> %s ; metacall -> %s" % (lit_consts.get(at), rt_consts.get(at)), F.where(pl))
 
+    # ---- number leaves: both evaluators accept every numeric representation ---------------------
+    # compile time: push_literal over parser::ast::Literal; run time: the cell dispatch of the tree walker
+    lit_kinds = set()
+    for m in matches_in(plh["body"], src=None):
+        for arm in m["arms"]:
+            for leaf in pat_leaves(arm["pat"]):
+                lf = leaf
+                while lf["k"] == "PRef":
+                    lf = lf["sub"]
+                rn = res_name(lf) or ""
+                if rn.startswith("parser::ast::Literal::") and any((x.get("ctor") or "").startswith("forms::Number::") for x in walk(arm["body"])):
+                    lit_kinds.add(rn.rsplit("::", 1)[1])
+    need_lit = {"Fixnum", "Integer", "Rational", "F64"}
+    R.ob("C03:number-leaves:compiled", need_lit <= lit_kinds,
+         "push_literal turns Literal::%s into numbers; all of %s are needed, otherwise an expression compiled with such a leaf (e.g. a clause asserted "
+         "with a bound rational inside) raises type_error(evaluable, ..) while the same expression evaluated at run time succeeds" % (sorted(lit_kinds), sorted(need_lit)), F.where(pl))
+    rt_tags, rt_arena = set(), set()
+    for m in matches_in(mh["body"], src=None):
+        for arm in m["arms"]:
+            pushes_number = any((x.get("ctor") or "").startswith("forms::Number::") for x in walk(arm["body"]))
+            for leaf in pat_leaves(arm["pat"]):
+                rn = res_name(leaf) or ""
+                if rn.startswith("types::HeapCellValueTag::") and pushes_number:
+                    rt_tags.add(rn.rsplit("::", 1)[1])
+                for x in walk(leaf):
+                    rr = res_name(x) or ""
+                    if "ArenaHeaderTag::" in rr and pushes_number:
+                        rt_arena.add(rr.rsplit("::", 1)[1])
+    R.ob("C03:number-leaves:runtime", {"Fixnum", "F64Offset", "Cons"} <= rt_tags and {"Integer", "Rational"} <= rt_arena,
+         "arith_eval_by_metacall reads number cells tagged %s / arena kinds %s; Fixnum, F64Offset and Cons{Integer,Rational} are all needed" % (sorted(rt_tags), sorted(rt_arena)), F.where(mc))
+
     # ---- shared operand fetch -----------------------------------------------------------
     gn = F.find("<impl machine::machine_state::MachineState>::get_number")
     gnc = set(r for _, r, _ in hir_calls(F.hir(gn)["body"]))
